@@ -35,6 +35,18 @@ QuantLevels(S, Dst, x, y) ==
     /\ ZEq(x, Highest(S)) => ZEq(y, Highest(Dst))
     /\ ZEq(x, ZeroCode(S)) => ZEq(y, ZeroCode(Dst))
 
+(* ---- the implementation-shaped reference requantisation (what the Go functions compute; the same formula is   *)
+(* model-checked in MCNum.tla and checked for all values with Apalache in QuantApa.tla).  NumTrace counts on how  *)
+(* many recorded points the code AGREES with it -- informational: the verdict is always the envelope above.       *)
+ZShrTrunc(a, k) == Z(a.neg, NShr(a.mag, k))
+ZShrFloor(a, k) == IF a.neg THEN Z(TRUE, NShr(NAdd(a.mag, NSub(NPow2(k), <<1>>)), k)) ELSE Z(FALSE, NShr(a.mag, k))
+RefQuantZ(S, Dst, x) ==
+    LET a == Amp(S, x)
+        b == IF S.d >= Dst.d
+             THEN (IF S.signed THEN ZShrTrunc(a, S.d - Dst.d) ELSE ZShrFloor(a, S.d - Dst.d))
+             ELSE IF ZLt(Z0, a) THEN ZSub(ZShl(ZAdd(a, Z1), Dst.d - S.d), Z1) ELSE ZShl(a, Dst.d - S.d) IN
+    IF Dst.signed THEN b ELSE ZAdd(b, Half(Dst))
+
 (* ---- C08: float -> fixed ------------------------------------------------------ *)
 FullScale(Dst, neg) == IF neg THEN Half(Dst) ELSE ZSub(Half(Dst), Z1)
 \* |b - f*FS| <= 1 for -1 < f < 1   (f dyadic)
